@@ -269,6 +269,28 @@ CHECKS["C09"] = dict(
          "Observation outside the property: refinepositions stores the last trial point of the simplex, not its best vertex "
          "(identical on convergence to within the final simplex size).")
 
+CHECKS["C20"] = dict(
+    category="other", design_ref="DESIGN.md section 3 / C20",
+    technique="bounds ledger by abstract interpretation over polynomial index forms (loop-range elimination, lower-bound "
+              "substitution, depth-bounded combination of dominating-condition facts; counter, clip and remainder idioms; "
+              "interprocedural requirement summaries) on the clang AST; .pyf <-> C signature agreement via crackfortran; "
+              "must-defined dataflow; OpenMP dependence discipline; allocation pairing on the CFG; output coverage analysis",
+    text="Static necessary-condition ledger, not a memory-safety proof: (R1) the 57 .pyf routines equal the wrapper blocks in "
+         "the C sources and agree with the C signatures in count, order, scalar/array-ness, element width and class, fixed "
+         "inner dimensions and hidden extents; (R2) no local scalar / small array cell of any of the 71 C functions is read "
+         "before it is assigned; (R3) all OpenMP directives satisfy the data-sharing / affine-disjointness discipline; (R4) "
+         "heap blocks are null-checked (or listed), freed on every path to a return, not used after free; (R5) intent(out) "
+         "arrays are written over their whole extent and scalar outputs on every path; (R6) each of ~1760 subscripts / "
+         "dereferences / pointer hand-overs is PROVEN or GUARDED in [0, extent) from loop ranges, dominating conditions and "
+         ".pyf extents under the property's own domain (images >= 2x2, counts >= 0), is checked at its call sites against the "
+         "callee's requirement summary, or sits at one of 139 confirmed PRECONDITION sites (sortedness of (i,j), labels <= "
+         "npk, permutation tables, disjoint-set invariants, assumed-size .pyf arrays), each with a reason; an unbounded "
+         "input-dependent index, an insufficient guard, or an affine index with an out-of-range witness is a violation.",
+    note=TRUST + "PRECONDITION sites (161 accesses) and the disjoint-set arrays are trusted, so an off-by-one inside a scan that "
+         "relies on sortedness is invisible to R6 (C11-C14 cover the scan guards). Integer overflow of index arithmetic, "
+         "alignment, aliasing between arguments and the f2py-generated wrapper code itself are not analysed. Found and fixed: "
+         "cluster1d, sparse_localmaxlabel and compress_duplicates touched element 0 of empty arrays.")
+
 NOT_YET = {}
 
 NOT_APPLICABLE = {
